@@ -11,7 +11,7 @@ FUNCS = ["PyMatterSim.dynamic.time_corr.time_correlation"]
 BOUNDS = {
     "quick": "series of shape (T,N), (T,N,2), (T,N,2,2), real and complex, all values symbolic; T<=3, N<=2; timestep patterns: "
              "even, uneven, single frame; symbolic dt",
-    "thorough": "as quick with T<=5 and N<=3",
+    "thorough": "as quick with T<=7 and N<=4, three timestep patterns (even, uneven, even except for the last gap)",
 }
 STUBS = []
 ASSUMPTIONS = ["floats modelled as reals", "lag-zero value non-zero (normalisation defined)", "timesteps concrete (the pattern "
@@ -36,12 +36,17 @@ def _series(ctx, T, N, rank, cplx):
     return re + 1j * im, re, im
 
 
-def h_tc(ctx, T, N, rank, cplx, steps):
+def h_tc(ctx, T, N, rank, cplx, steps, dt_literal=None):
     ctx.covers(*FUNCS)
     tc = ctx.repo("PyMatterSim.dynamic.time_corr")
     ru = ctx.repo("PyMatterSim.reader.reader_utils")
     cond, re, im = _series(ctx, T, N, rank, cplx)
-    dt = ctx.real("dt", positive=True)
+    if dt_literal is None:
+        dt = ctx.real("dt", positive=True)
+    else:
+        # a documented decimal time step (default 0.002): the exact rational in the symbolic run, the double in the replay -
+        # the one place where this check looks at a float-level effect (evenly spaced integer timesteps stay evenly spaced)
+        dt = Fraction(dt_literal) if ctx.mode == "sym" else float(Fraction(dt_literal))
     rows = [[1, 0], [0, 1]]
     snaps = [C.snapshot(ctx, ru, steps[t], [1] * N, C.farr(ctx, [[0, 0]] * N), rows) for t in range(T)]
     S = ru.Snapshots(nsnapshots=T, snapshots=snaps)
@@ -81,17 +86,23 @@ def h_tc(ctx, T, N, rank, cplx, steps):
 
 def cfg(tier, seed):
     out = []
-    Ts = (1, 2, 3) if tier == "quick" else (1, 2, 3, 4, 5)
-    Ns = (2,) if tier == "quick" else (2, 3)
+    Ts = (1, 2, 3) if tier == "quick" else (1, 2, 3, 4, 5, 6, 7)
+    Ns = (2,) if tier == "quick" else (2, 3, 4)
     for rank in (0, 1, 2):
         for cplx in (False, True):
             for T in Ts:
                 pats = [[10 * (t + 1) for t in range(T)]]
                 if T >= 3:
-                    pats.append([5, 7, 11, 19, 35][:T])
+                    pats.append([5, 7, 11, 19, 35, 67, 131][:T])
+                if T >= 4 and tier == "thorough":
+                    pats.append([0, 100, 200, 300, 400, 500, 700][:T - 1] + [1000])      # even except for the last gap
                 for steps in pats:
                     for N in Ns:
                         out.append(dict(T=T, N=N, rank=rank, cplx=cplx, steps=steps))
+    # documented decimal time steps on evenly spaced trajectories
+    for dtl, steps in (("1/500", [100 + 5 * t for t in range(6)]), ("1/500", list(range(10))), ("1/200", [2 * t for t in range(8)]),
+                       ("1/100", [3 * t for t in range(7)])):
+        out.append(dict(T=len(steps), N=1, rank=0, cplx=False, steps=steps, dt_literal=dtl))
     return out
 
 
